@@ -38,7 +38,7 @@ Inductive trig (g : cfg) : lintcode -> loc -> Prop :=
     existsb (fun kv => holds_original (wv r) (snd kv)) (mout c) = false ->
     existsb (fun kv => holds_original (wv r) (snd kv)) (rout c) = false ->
     trig g LLostRegisterValue (op_loc r)
-| T_overwrite_callee_saved : forall l fid f e r w, In (l, fid) (glabelfn g) -> nth_opt (gfuncs g) fid = Some f ->
+| T_overwrite_callee_saved : forall f e r w, In f (gfuncs g) ->
     node_at g (fexit f) e -> In r (rs_elems callee_saved_set) -> is_original_value (rin e) r = false ->
     In w (error_ranges_for_first_store (gnodes g) (fexit f) r) ->
     trig g LOverwriteCalleeSavedRegister w
